@@ -15,10 +15,14 @@ open Pox.Handoff
 
 /-! ## tie to the source: the site tables agree -/
 
-/-- the statements of the hand-off functions, as regenerated from the working tree, are the ones the model was
-written against (same statements, same order; `normalize` maps the text of a listed, reviewed repair back to the
-original statement — see `HandoffSites.repaired`) -/
-theorem sites_agree : Pox.HandoffSites.normalize Pox.Generated.Sites.fns = Pox.HandoffSites.texts := by decide
+/-- the operations on shared state performed by the hand-off functions (helpers inlined), as regenerated from the working
+tree, are the ones the model was written against — see `HandoffSites.ops`.  (The statement TEXTS of `HandoffSites.table` are
+evidence only — the harness reports whether they still agree: they change with every refactoring; order and conditions of the
+operations are tied by the trace validation.) -/
+theorem ops_agree : Pox.Generated.Sites.ops = Pox.HandoffSites.ops := by decide
+
+/-- every action the model's table anchors in a function is an operation in that function's bag -/
+theorem ops_cover : Pox.HandoffSites.opsCover = true := by decide
 
 /-- every action of the model is anchored at exactly one statement (or is one of the two harness-defined actions) -/
 theorem sites_anchored :
